@@ -20,8 +20,9 @@ CATS = ['Op', 'OpB', 'Op_x', 'O', 'Batch[Order]', 'svc:op.v2']          # prefix
 PLAYER_ERROR = '<player error>'
 
 
-def tuner_error(cat):
-    return 'no tuning for ' + cat
+def tuner_error(cat, case=None):
+    # (a failing tuner may raise an exception that carries no message at all: `raise ValueError()`)
+    return '' if case and case.get('bare_errors') else 'no tuning for ' + cat
 
 
 def replay_delta(value):
@@ -60,7 +61,7 @@ class C19(Prop):
     RULE = ('one case = 0-10 really recorded operations in 1-4 prefix-related categories (Op, OpB, Op_x, O) on an in-memory, '
             'file-based or fake-bucket S3 cassette, played by the real PlaybackStudio with explicit ids in shuffled order '
             '(sometimes with unknown ids / duplicates) or lookup-driven (skip_incomplete on/off, interrupted recordings), tuners '
-            'failing for a subset of categories, generators consumed in a given interleaving, a quarter of the cases with play() called a second time on the same studio; non-trivial = at least two '
+            'failing for a subset of categories, generators consumed in a given interleaving, a quarter of the cases with play() called a second time on the same studio, failing tuners whose exception carries no message, explicit ids next to lookup properties with limit 0-2 (ignored); non-trivial = at least two '
             'categories involved or a failing tuner; distinct = distinct canonical case')
     TRUSTED = ['correspondence harness harness/props/c19.py + Lean driver (Drive/Studio.lean)',
                'category names are renamed to their rank in Python string order for the model (sorted() on str = rank order)',
@@ -108,6 +109,10 @@ class C19(Prop):
             case['order'] = self.make_order(case, rng)
             if rng.random() < 0.25:
                 case['again'] = True      # play() is called a second time on the same studio object
+            if failing and rng.random() < 0.3:
+                case['bare_errors'] = True     # the failing tuners raise an exception without a message
+            if explicit and rng.random() < 0.3:
+                case['explicit_limit'] = rng.choice([0, 1, 2])    # lookup properties with a limit next to explicit ids: ignored
             cases.append(case)
         # the same kind of run with every category's comparisons in a dedicated worker process, the categories' generators
         # consumed interleaved (each category has its own worker; one category's run must not disturb another's)
@@ -307,6 +312,8 @@ class C19(Prop):
             class Tuner(EqualizerTuner):
                 def create_category_tuning(self, category):
                     if category in failing:
+                        if case.get('bare_errors'):
+                            raise ValueError()
                         raise ValueError(tuner_error(category))
 
                     def playback_function(recording):
@@ -338,6 +345,9 @@ class C19(Prop):
                         unknown[rid] = '?%d' % e[2]
                         sel.append(rid)
                 studio = PlaybackStudio(case['categories'], Tuner(), tr, recording_ids=sel,
+                                        lookup_properties=RecordingLookupProperties(start_date=datetime.datetime.utcnow() - datetime.timedelta(days=1),
+                                                                                  limit=case['explicit_limit'])
+                                        if case.get('explicit_limit') is not None else None,
                                         compare_execution_config=CompareExecutionConfig(
                                             keep_results_in_comparison=case['keep'],
                                             compare_in_dedicated_process=bool(case.get('dedicated')),
@@ -448,7 +458,7 @@ class C19(Prop):
                         beh.append([rank[e[1]], num, {'k': 'playerRaises', 'm': PLAYER_ERROR}])
         req = {'m': 'c19.play', 'cats': cats,
                'stored': [[i, rank[c], bool(inc), True] for i, (c, v, inc) in enumerate(case['recs'])],
-               'failing': [[rank[c], tuner_error(c)] for c in case['failing']],
+               'failing': [[rank[c], tuner_error(c, case)] for c in case['failing']],
                'beh': beh, 'keep': case['keep'], 'rate': 5, 'timeoutMs': 600000, 'dedicated': bool(case.get('dedicated')),
                'skipIncomplete': case['skip_incomplete'], 'limit': None,
                'categories': [rank[c] for c in case['categories']] if not case['explicit'] else [],
@@ -518,7 +528,7 @@ class C19(Prop):
             fails.append('categories reported: %r, expected %r' % (impl['cats'], want_cats))
         for k in impl['cats']:
             if k in case['failing']:
-                if impl['errors'].get(k) != ['ValueError', tuner_error(k)]:
+                if impl['errors'].get(k) != ['ValueError', tuner_error(k, case)]:
                     fails.append('category %s: its tuner fails, reported %r' % (k, impl['errors'].get(k, impl['final'].get(k))))
                 continue
             if k in impl['errors']:
@@ -590,6 +600,10 @@ class C19(Prop):
             out.append('incomplete-recording')
         if case.get('again'):
             out.append('played-twice-on-one-studio')
+        if case.get('bare_errors'):
+            out.append('tuner-error-without-message')
+        if case.get('explicit_limit') is not None:
+            out.append('explicit-ids+lookup-limit')
         return out
 
     def shrink(self, case):
